@@ -294,6 +294,28 @@ def text_roundtrip(run, fgd: Any, custom: bool, label: bool, as_bytes: bool, eng
             run.violation(f'second export differs from the first at offset {k}',
                           witness={'first': text[max(0, k - 200):k + 200], 'second': text2[max(0, k - 200):k + 200]},
                           case=case, engine=engine, key=mkey)
+    # -------- the same text read again after the caller edited everything the first read returned
+    if ok:
+        try:
+            for ent in list(parsed.entities.values()):
+                vandalise(ent)
+            parsed.entities.pop(next(iter(parsed.entities), ''), None)
+        except Exception:
+            return text, ok  # the editing is the harness's own; it decides nothing
+        try:
+            again = G.snap_fgd(parse_text(text, as_bytes))
+        except Exception as exc:
+            run.violation(f'the text that parsed a moment ago no longer parses after the first result was edited: '
+                          f'{type(exc).__name__}: {exc}', case=case, engine=engine, key='second-read-depends-on-first-result')
+            return text, False
+        run.count('texts_read_again_after_first_result_edited')
+        d2 = G.first_diff(got, again)
+        if d2 is not None:
+            ok = False
+            run.violation(f'the same text read a second time gives different definitions at {d2[0]} once the first result '
+                          f'was edited: {_clip(d2[1])!r} -> {_clip(d2[2])!r}',
+                          witness={'path': d2[0], 'first_read': _clip(d2[1], 500), 'second_read': _clip(d2[2], 500)},
+                          case=case, engine=engine, key='second-read-depends-on-first-result')
     return text, ok
 
 
@@ -920,4 +942,4 @@ def replay(run, data) -> None:
 
 
 # (kept at the end of the file so that the text above stays the description the check was first built to)
-RULE += ' ' + 'Later additions: the visgroup tree of the FGD given to export() is preserved by it; every entity of the bundled database reaches _CBaseEntity_; definitions returned by engine_def() are edited (everything mutable, bases included) and looked up again.'
+RULE += ' ' + 'Later additions: the visgroup tree of the FGD given to export() is preserved by it; every entity of the bundled database reaches _CBaseEntity_; definitions returned by engine_def() are edited (everything mutable, bases included) and looked up again. The text of every round trip is read a second time after everything the first read returned was edited; both reads give the same definitions.'
